@@ -23,6 +23,8 @@ import Compio.Lemmas.TlsSys
 import Compio.Lemmas.TlsApp
 import Compio.Lemmas.TlsFuel
 import Compio.Lemmas.WsShim
+import Compio.Gen.TlsCompat
+import Compio.Gen.WsCompat
 
 namespace Compio.Props.C15
 open Compio.TlsNet Compio.TlsShim Compio.TlsSys
@@ -430,5 +432,409 @@ example :
     let y12 := (run 400 (Sys.init sc false [.client, .server, .client, .client, .server] 0 [] [])).1
     y13.c.res = [.ok 0] ∧ y13.s.res = [.ok 0] ∧ y13.tpC.wbuf.toList = [] ∧ y13.tpS.wbuf.toList = [] ∧
     y12.c.res = [.ok 0] ∧ y12.s.res = [.ok 0] ∧ y12.tpC.wbuf.toList = [] ∧ y12.tpS.wbuf.toList = [] := by decide
+
+
+/-! ### 6. the shim as regenerated from the source (`Gen/TlsCompat.lean`, extractor target `TlsCompat`)
+
+`Compio.Gen.TlsCompat` is produced by `/verif/extract` from `compio-tls/src/compat/common.rs` and
+`compat/native.rs` on every check: the `OpensslInner` flag logic as Lean functions over an arbitrary inner
+stream, the two `with_context` result maps, the dispatch tables, the statement lists of `handshake()`. The
+theorems below say that the hand model of `Model/TlsShim.lean` (the functions the driver executes and every
+theorem above is about) *is* that generated code, instantiated with the model transport - for all states and
+all inputs. A source edit that changes one of these constructs changes the generated definitions and breaks
+one of these proofs whether or not a generated case samples it. -/
+
+namespace GenTie
+open Compio.Gen
+
+def toP {α : Type} : IoR α → TlsCompat.P Pend α
+  | .pending p => .pending p
+  | .ready a => .ready a
+  | .err => .err
+
+def toPv {α : Type} (r : View × IoR α) : View × TlsCompat.P Pend α := (r.1, toP r.2)
+
+def ofStd {α : Type} : TlsCompat.Std Pend α → BioR α
+  | .ok a => .ok a
+  | .wouldBlock p => .wouldBlock p
+  | .err => .err
+  | .panic => .panic
+
+def toStd {α : Type} : BioR α → TlsCompat.Std Pend α
+  | .ok a => .ok a
+  | .wouldBlock p => .wouldBlock p
+  | .err => .err
+  | .panic => .panic
+
+def ofOuter {α : Type} : TlsCompat.Outer Pend α → PollR α
+  | .pending p => .pending p
+  | .ready a => .ready a
+  | .err => .err
+  | .panic => .panic
+
+/-- the `OpensslInner` flags inside the model state -/
+def flagsOf (o : Ossl) : TlsCompat.Flags := ⟨o.written, o.handshaken⟩
+
+def setFlags (o : Ossl) (f : TlsCompat.Flags) : Ossl := { o with written := f.written, handshaken := f.handshaken }
+
+theorem setFlags_flagsOf (o : Ossl) : setFlags o (flagsOf o) = o := by cases o; rfl
+
+/-- `AllowStd::write` assembled from the generated pieces over the model transport -/
+def genBioWrite (sc : Sched) (o : Ossl) (v : View) (cs : List Cell) : Ossl × View × BioR Nat :=
+  match TlsCompat.withContext o.ctx (flagsOf o, v) (fun _ =>
+      match TlsCompat.pollWrite (fun v => toPv (ioWrite sc v cs)) (flagsOf o) v with
+      | (f, v, r) => ((f, v), r)) with
+  | ((f, v), r) => (setFlags o f, v, ofStd r)
+
+/-- `AllowStd::flush` assembled from the generated pieces -/
+def genBioFlush (sc : Sched) (o : Ossl) (v : View) : Ossl × View × BioR Unit :=
+  match TlsCompat.withContext o.ctx (flagsOf o, v) (fun _ =>
+      match TlsCompat.pollFlush (fun v => toPv (ioFlush sc v)) (flagsOf o) v with
+      | (f, v, r) => ((f, v), r)) with
+  | ((f, v), r) => (setFlags o f, v, ofStd r)
+
+/-- `AllowStd::read` assembled from the generated pieces; `none` = the generated `loop` ran out of fuel -/
+def genBioRead (sc : Sched) (fuel : Nat) (o : Ossl) (v : View) (n : Nat) : Option (Ossl × View × BioR (List Cell)) :=
+  match TlsCompat.pollRead (fun v => toPv (ioFlush sc v)) (fun v => toPv (ioRead sc v n)) fuel (flagsOf o) v with
+  | (_, _, none) => none
+  | (f, v', some r) =>
+    match TlsCompat.withContext o.ctx (flagsOf o, v) (fun _ => ((f, v'), r)) with
+    | ((f, v), r) => some (setFlags o f, v, ofStd r)
+
+end GenTie
+
+open GenTie Compio.Gen in
+/-- **the hand model's `AllowStd::write` is the regenerated code**: context assertion first, then
+`OpensslInner::poll_write` (delegate; `written := true` exactly on `Ready(Ok)`), `Pending → WouldBlock`. -/
+theorem gen_bioWrite (sc : Sched) (o : Ossl) (v : View) (cs : List Cell) :
+    bioWrite sc o v cs = genBioWrite sc o v cs := by
+  unfold bioWrite genBioWrite TlsCompat.withContext TlsCompat.pollWrite toPv
+  rcases h : ioWrite sc v cs with ⟨v', r⟩
+  rcases o with ⟨me, tape, post, out, op, cl, rc, w, hs, ctx⟩
+  cases ctx <;> cases r <;> simp [h, toP, TlsCompat.stdOf, ofStd, setFlags, flagsOf]
+
+open GenTie Compio.Gen in
+/-- **`AllowStd::flush` / `OpensslInner::poll_flush`**: a no-op `Ready(Ok)` while not handshaken, the inner flush
+afterwards - as regenerated. -/
+theorem gen_bioFlush (sc : Sched) (o : Ossl) (v : View) :
+    bioFlush sc o v = genBioFlush sc o v := by
+  unfold bioFlush genBioFlush TlsCompat.withContext TlsCompat.pollFlush toPv
+  rcases h : ioFlush sc v with ⟨v', r⟩
+  rcases o with ⟨me, tape, post, out, op, cl, rc, w, hs, ctx⟩
+  cases ctx <;> cases hs <;> cases r <;> simp [h, toP, TlsCompat.stdOf, ofStd, setFlags, flagsOf]
+
+open GenTie Compio.Gen in
+/-- **`AllowStd::read` / `OpensslInner::poll_read`**: the regenerated `loop` (guard `!handshaken && written`,
+flush first, `written := false` on `Ready(Ok)`, break on `Pending` / `Err`, else the inner read) needs two
+iterations at most and then is the hand model's `bioRead`, for every state and every transport behaviour. -/
+theorem gen_bioRead (sc : Sched) (fuel : Nat) (o : Ossl) (v : View) (n : Nat) :
+    genBioRead sc (fuel + 2) o v n = some (bioRead sc o v n) := by
+  unfold genBioRead bioRead TlsCompat.withContext toPv
+  rcases hf : ioFlush sc v with ⟨vf, rf⟩
+  rcases hr : ioRead sc v n with ⟨vr, rr⟩
+  rcases hr2 : ioRead sc vf n with ⟨vr2, rr2⟩
+  rcases o with ⟨me, tape, post, out, op, cl, rc, w, hs, ctx⟩
+  cases ctx <;> cases hs <;> cases w <;> cases rf <;> cases rr <;> cases rr2 <;>
+    simp [TlsCompat.pollRead, hf, hr, hr2, toP, TlsCompat.stdOf, ofStd, setFlags, flagsOf]
+
+open Compio.Gen in
+/-- the regenerated `poll_read` loop terminates within two iterations over **any** inner stream (whatever its
+`poll_flush` / `poll_read` do): more fuel never changes the result and the result is never "out of fuel". -/
+theorem gen_pollRead_two_iterations {σ ε α : Type} (flush : σ → σ × TlsCompat.P ε Unit)
+    (read : σ → σ × TlsCompat.P ε α) (n : Nat) (f : TlsCompat.Flags) (s : σ) :
+    TlsCompat.pollRead flush read (n + 2) f s = TlsCompat.pollRead flush read 2 f s ∧
+    (TlsCompat.pollRead flush read 2 f s).2.2 ≠ none := by
+  rcases f with ⟨w, h⟩
+  cases w <;> cases h <;> simp [TlsCompat.pollRead] <;>
+    (rcases hf : flush s with ⟨s', r⟩; cases r <;> simp)
+
+open GenTie Compio.Gen in
+/-- **`native::TlsStream::with_context`** (set the context, run the engine, the `Guard` clears the context, map the
+result) is the regenerated result map `pollOf`: `Ok → Ready`, `WouldBlock → Pending`, other errors `Ready(Err)`. -/
+theorem gen_withContext {α : Type} (o : Ossl) (v : View) (f : Ossl → View → Ossl × View × BioR α) :
+    withContext o v f =
+      (match f { o with ctx := true } v with
+       | (o', v', r) => ({ o' with ctx := false }, v', ofOuter (TlsCompat.pollOf (toStd r)))) := by
+  unfold withContext
+  rcases h : f { o with ctx := true } v with ⟨o', v', r⟩
+  cases r <;> simp [toStd, TlsCompat.pollOf, ofOuter]
+
+open Compio.Gen in
+/-- the dispatch tables of the source as the model has them: which inner poll each std call makes, which engine
+call each `poll_*` of `native::TlsStream` makes (`pollRead = sslRead`, `pollWrite = sslWrite`,
+`pollFlush = bioFlush`, `pollClose = sslShutdown`), the error kind standing for `Pending`, the initial flags
+(`Ossl.new`), and that `connect` / `accept` are both nothing but `handshake()`. -/
+theorem gen_dispatch_tables :
+    TlsCompat.stdRead = .pollRead ∧ TlsCompat.stdWrite = .pollWrite ∧ TlsCompat.stdFlush = .pollFlush ∧
+    TlsCompat.tlsPollRead = .read ∧ TlsCompat.tlsPollWrite = .write ∧ TlsCompat.tlsPollFlush = .flush ∧
+    TlsCompat.tlsPollClose = .shutdown ∧ TlsCompat.pendingKind = "WouldBlock" ∧
+    TlsCompat.pollCloseDelegates = true ∧ TlsCompat.bothRolesShareHandshake = true ∧
+    (∀ (me : Side) (tape : List Side) (post : Nat), GenTie.flagsOf (Ossl.new me tape post) = TlsCompat.new) := by
+  refine ⟨rfl, rfl, rfl, rfl, rfl, rfl, rfl, by decide, rfl, rfl, ?_⟩
+  intro me tape post; rfl
+
+open Compio.Gen in
+/-- **`handshake()` as regenerated**: the `Done` arm returns the stream with no further step (the latent defect of
+`Cex.C15.done_path_unflushed`), the `Mid` arm is `MidHandshake.await`, `finish_handshake()`, `flush().await`, in this
+order, for the connector and the acceptor alike; the two poll functions have the arms the model has
+(`HsFut.start`: `Ok → done`, `WouldBlock → mid`; `HsFut.mid`: `Ok → finish + flush`, `WouldBlock → Pending`). -/
+theorem gen_handshake_steps :
+    TlsCompat.handshakeDoneSteps = [] ∧
+    TlsCompat.handshakeMidSteps = [.midHandshake, .finishHandshake, .flush] ∧
+    TlsCompat.startedArms = [.okDone, .wouldBlockMid, .failure] ∧
+    TlsCompat.midArms = [.okDone, .wouldBlockPending, .failure] := by decide
+
+open GenTie Compio.Gen in
+/-- the `Mid` arm on the model, with the regenerated `finish_handshake`: when the resumed engine call returns `Ok`,
+the poll of `handshake()` is the poll of the flush of the stream whose flags are `finishHandshake` of the engine's. -/
+theorem gen_handshake_mid_ok (sc : Sched) (o o1 : Ossl) (v v1 : View)
+    (h : sslDoHandshake sc sc.fuel { o with ctx := true } v = (o1, v1, .ok ())) :
+    pollHandshake sc .mid o v =
+      (match pollFlush sc (setFlags { o1 with ctx := false } (TlsCompat.finishHandshake (flagsOf o1))) v1 with
+       | (o, v, .ready ()) => (.done, o, v, .ready ())
+       | (o, v, .pending p) => (.flush, o, v, .pending p)
+       | (o, v, .err) => (.failed, o, v, .err)
+       | (o, v, .panic) => (.failed, o, v, .panic)) := by
+  have e : setFlags { o1 with ctx := false } (TlsCompat.finishHandshake (flagsOf o1))
+      = { o1 with ctx := false, handshaken := true } := by
+    cases o1; rfl
+  rw [e]
+  simp only [pollHandshake, h]
+  try rfl
+
+/-- non-vacuity: the regenerated read loop does flush first, clears `written`, and then reads (second iteration) -/
+example :
+    (Compio.Gen.TlsCompat.pollRead (σ := Nat) (ε := Unit) (α := Nat)
+      (fun s => (s + 1, .ready ())) (fun s => (s, .ready s)) 2 ⟨true, false⟩ 0).1 = ⟨false, false⟩ := by decide
+
+example : (GenTie.genBioWrite ⟨4, false, false, 0, 0, 0, 0, 10⟩
+    { Ossl.new .client [] 0 with ctx := true } ⟨Tp.new, Pipe.empty, Pipe.empty, false, false⟩ [Cell.hs]).1.written = true := by
+  decide
+
+
+/-! ### 7. all histories of calls through the regenerated `OpensslInner`, over ANY inner stream
+
+The mechanism "during the handshake a read first flushes what was written" as a statement about every sequence
+of std-style calls (`read` / `write` / `flush` through `AllowStd`, `finish_handshake`) on the *generated*
+`pollRead` / `pollWrite` / `pollFlush`, the inner stream being an adversary that answers every poll with an
+arbitrary `Pending` / `Ready(Ok)` / `Err`. Ghost state: `dirty` = the inner stream accepted a write since its last
+`Ready` flush; `bad` = `inner.poll_read` was called during the handshake while `dirty` (the endpoint would wait for
+the peer with its own flight still unflushed: the deadlock of a buffering transport). -/
+
+namespace GenHist
+open Compio.Gen
+
+abbrev R := TlsCompat.P Unit Unit
+
+inductive Op where
+  /-- `AllowStd::read`; `rf` / `rr` = what the inner `poll_flush` / `poll_read` answer if they are called -/
+  | read (rf rr : R)
+  | write (r : R)
+  | flush (r : R)
+  | finish
+
+structure St where
+  f : TlsCompat.Flags
+  dirty : Bool
+  bad : Bool
+
+def isReady : R → Bool
+  | .ready _ => true
+  | _ => false
+
+def step (s : St) : Op → St
+  | .write r =>
+    match TlsCompat.pollWrite (fun d : Bool => (d || isReady r, r)) s.f s.dirty with
+    | (f, d, _) => { s with f := f, dirty := d }
+  | .flush r =>
+    match TlsCompat.pollFlush (fun d : Bool => (d && !isReady r, r)) s.f s.dirty with
+    | (f, d, _) => { s with f := f, dirty := d }
+  | .read rf rr =>
+    match TlsCompat.pollRead (fun x : Bool × Bool => ((x.1 && !isReady rf, x.2), rf))
+        (fun x : Bool × Bool => ((x.1, x.2 || (x.1 && !s.f.handshaken)), rr)) 2 s.f (s.dirty, s.bad) with
+    | (f, (d, b), _) => { f := f, dirty := d, bad := b }
+  | .finish => { s with f := TlsCompat.finishHandshake s.f }
+
+def run (s : St) (l : List Op) : St := l.foldl step s
+
+def init : St := ⟨TlsCompat.new, false, false⟩
+
+/-- never read with unflushed handshake data so far, and while handshaking `dirty → written` -/
+def Inv (s : St) : Prop := s.bad = false ∧ (s.f.handshaken = false → s.dirty = true → s.f.written = true)
+
+theorem step_inv (s : St) (op : Op) (h : Inv s) : Inv (step s op) := by
+  rcases s with ⟨⟨w, hs⟩, d, b⟩
+  rcases h with ⟨hb, hd⟩
+  simp only at hb hd
+  subst hb
+  cases op with
+  | read rf rr =>
+    cases rf <;> cases rr <;> cases w <;> cases hs <;> cases d <;>
+      simp_all [Inv, step, TlsCompat.pollRead, isReady]
+  | write r =>
+    cases r <;> cases w <;> cases hs <;> cases d <;> simp_all [Inv, step, TlsCompat.pollWrite, isReady]
+  | flush r =>
+    cases r <;> cases w <;> cases hs <;> cases d <;> simp_all [Inv, step, TlsCompat.pollFlush, isReady]
+  | finish => simp_all [Inv, step, TlsCompat.finishHandshake]
+
+theorem run_inv (l : List Op) : ∀ s : St, Inv s → Inv (run s l) := by
+  induction l with
+  | nil => intro s h; exact h
+  | cons op l ih => intro s h; exact ih _ (step_inv s op h)
+
+end GenHist
+
+/-- **all histories**: whatever sequence of reads, writes, flushes and `finish_handshake` goes through the regenerated
+`OpensslInner`, and whatever the inner stream answers (any `Pending` / `Ready` / `Err` pattern), the inner
+`poll_read` is never reached during the handshake with a written-but-unflushed flight. -/
+theorem gen_history_read_only_after_flush (l : List GenHist.Op) : (GenHist.run GenHist.init l).bad = false :=
+  (GenHist.run_inv l GenHist.init ⟨rfl, by intro _ h; cases h⟩).1
+
+/-- … and after `finish_handshake` the flag logic is transparent for ever: a flush is always the inner flush
+(`handshaken` is never reset by any call). -/
+theorem gen_history_handshaken_stable (l : List GenHist.Op) (s : GenHist.St) (h : s.f.handshaken = true) :
+    (GenHist.run s l).f.handshaken = true := by
+  induction l generalizing s with
+  | nil => exact h
+  | cons op l ih =>
+    apply ih
+    rcases s with ⟨⟨w, hs⟩, d, b⟩
+    simp only at h
+    subst h
+    cases op with
+    | read rf rr => cases rf <;> cases rr <;> cases w <;> simp [GenHist.step, Compio.Gen.TlsCompat.pollRead]
+    | write r => cases r <;> simp [GenHist.step, Compio.Gen.TlsCompat.pollWrite]
+    | flush r => cases r <;> simp [GenHist.step, Compio.Gen.TlsCompat.pollFlush]
+    | finish => simp [GenHist.step, Compio.Gen.TlsCompat.finishHandshake]
+
+/-- non-vacuity: a write accepted, then a read: the flush is performed first (`dirty` cleared), the read reached -/
+example : (GenHist.run GenHist.init [.write (.ready ()), .read (.ready ()) (.pending ())]).dirty = false ∧
+    (GenHist.run GenHist.init [.write (.ready ()), .read (.pending ()) (.ready ())]).dirty = true := by decide
+
+
+/-! ### 8. compio-ws: `poll_flush` / `poll_next` as regenerated (`Gen/WsCompat.lean`, extractor target `WsCompat`)
+
+The statement lists of `Sink::poll_flush` and of the two branches of the `Stream::poll_next` loop are regenerated
+from `compio-ws/src/lib.rs`; `GenWs.exec` gives them their meaning on the model (`ready!(..)?` = return `Pending`
+at once) and the hand model's `WsShim.pollFlush` / `pollNext` - the functions of `ws_flush_*` / `ws_next_*` - are
+proved to be exactly that, for every state. -/
+
+namespace GenWs
+open Compio.Gen Compio.WsShim
+
+inductive Out where
+  | pending (p : Pend)
+  /-- the function returned `Ready` (`none`: `Ok(())`, `some f`: the item) -/
+  | ret (item : Option Frame)
+  /-- end of the loop body: the loop repeats -/
+  | fall
+  /-- `expect("next_item should be Some")` failed -/
+  | panic
+
+/-- meaning of a statement list; `it` = the local `item` -/
+def exec (sc : WSched) : List WsCompat.Stmt → Ws → WView → Option Frame → Ws × WView × Out
+  | [], w, v, _ => (w, v, .fall)
+  | .protoFlush :: k, w, v, it =>
+    match engFlush sc w.e v with
+    | (e, v, .pending p) => ({ w with e }, v, .pending p)
+    | (e, v, .ready ()) => exec sc k { w with e } v it
+  | .transportFlush :: k, w, v, it =>
+    match sFlush sc v with
+    | (v, .pending p) => (w, v, .pending p)
+    | (v, .ready ()) => exec sc k w v it
+  | .readyOk :: _, w, v, _ => (w, v, .ret none)
+  | .takeAndYield :: _, w, v, _ =>
+    match w.nextItem with
+    | some i => ({ w with nextItem := none }, v, .ret (some i))
+    | none => (w, v, .panic)
+  | .pollProtocol :: k, w, v, _ =>
+    match engRead w.e v with
+    | (e, v, .pending p) => ({ w with e }, v, .pending p)
+    | (e, v, .ready i) => exec sc k { w with e } v (some i)
+  | .park :: k, w, v, it => exec sc k { w with nextItem := it } v it
+
+def flushOut : Ws × WView × Out → Option (Ws × WView × R Unit)
+  | (w, v, .pending p) => some (w, v, .pending p)
+  | (w, v, .ret none) => some (w, v, .ready ())
+  | _ => none
+
+def nextOut : Ws × WView × Out → Option (Ws × WView × R Frame)
+  | (w, v, .pending p) => some (w, v, .pending p)
+  | (w, v, .ret (some i)) => some (w, v, .ready i)
+  | _ => none
+
+/-- the `poll_next` loop: at most two iterations are ever needed (second one only after parking an item) -/
+def genPollNext (sc : WSched) (w : Ws) (v : WView) : Option (Ws × WView × R Frame) :=
+  if w.nextItem.isSome then nextOut (exec sc WsCompat.pollNextParked w v none)
+  else
+    match exec sc WsCompat.pollNextEmpty w v none with
+    | (w, v, .fall) => if w.nextItem.isSome then nextOut (exec sc WsCompat.pollNextParked w v none) else none
+    | r => nextOut r
+
+end GenWs
+
+open Compio.Gen in
+/-- the regenerated statement order: protocol flush, transport flush, and only then `Ready` / `take()`-and-yield;
+without a parked item: poll the protocol stream, park the item. (Seed C15-2a - `take()` before the flushes - and
+the removal of the flushes change these lists.) -/
+theorem gen_ws_order :
+    WsCompat.pollFlush = [.protoFlush, .transportFlush, .readyOk] ∧
+    WsCompat.pollNextParked = [.protoFlush, .transportFlush, .takeAndYield] ∧
+    WsCompat.pollNextEmpty = [.pollProtocol, .park] ∧ WsCompat.sinkRestDelegates = true := by decide
+
+open GenWs Compio.Gen Compio.WsShim in
+/-- **`WsShim.pollFlush` is the regenerated `Sink::poll_flush`**, for every state and schedule. -/
+theorem gen_ws_pollFlush (sc : WSched) (w : Ws) (v : WView) :
+    flushOut (exec sc WsCompat.pollFlush w v none) = some (Compio.WsShim.pollFlush sc w v) := by
+  simp only [WsCompat.pollFlush, exec, Compio.WsShim.pollFlush]
+  rcases h : engFlush sc w.e v with ⟨e, v', r⟩
+  cases r with
+  | pending p => simp [flushOut]
+  | ready a =>
+    cases a
+    simp only []
+    rcases h2 : sFlush sc v' with ⟨v'', r2⟩
+    cases r2 with
+    | pending p => simp [flushOut]
+    | ready a => cases a; simp [flushOut]
+
+open GenWs Compio.Gen Compio.WsShim in
+/-- **`WsShim.pollNext` is the regenerated `Stream::poll_next` loop** (parked item: flush, flush, take and yield;
+otherwise poll, park, repeat), for every state and schedule; the loop never needs a third iteration and the
+`expect` never fails. -/
+theorem gen_ws_pollNext (sc : WSched) (w : Ws) (v : WView) :
+    genPollNext sc w v = some (Compio.WsShim.pollNext sc w v) := by
+  rcases w with ⟨e0, ni⟩
+  cases ni with
+  | some item =>
+    simp only [genPollNext, WsCompat.pollNextParked, exec, Compio.WsShim.pollNext, Compio.WsShim.pollFlush, Option.isSome]
+    rcases h : engFlush sc e0 v with ⟨e, v', r⟩
+    cases r with
+    | pending p => simp [nextOut]
+    | ready a =>
+      cases a
+      simp only []
+      rcases h2 : sFlush sc v' with ⟨v'', r2⟩
+      cases r2 with
+      | pending p => simp [nextOut]
+      | ready a => cases a; simp [nextOut]
+  | none =>
+    simp only [genPollNext, WsCompat.pollNextEmpty, WsCompat.pollNextParked, exec, Compio.WsShim.pollNext, Compio.WsShim.pollFlush,
+      Option.isSome]
+    rcases h0 : engRead e0 v with ⟨e1, v1, r1⟩
+    cases r1 with
+    | pending p => simp [nextOut]
+    | ready item =>
+      simp only [exec, Option.isSome]
+      rcases h : engFlush sc e1 v1 with ⟨e, v', r⟩
+      cases r with
+      | pending p => simp [nextOut, h]
+      | ready a =>
+        cases a
+        simp only [h]
+        rcases h2 : sFlush sc v' with ⟨v'', r2⟩
+        cases r2 with
+        | pending p => simp [nextOut, h2]
+        | ready a => cases a; simp [nextOut, h2]
 
 end Compio.Props.C15
